@@ -472,11 +472,49 @@ func TestC20(t *testing.T) {
 			if err := c20CheckValid(spec, pass, sizes); err != nil {
 				fatal(err)
 			}
-			c.Case(true, fmt.Sprintf("enum|c%d|h%d|%v", cb, hid, sizes), "enum:count-byte", "hash="+c20HashNames[hid])
+			c.Case(true, fmt.Sprintf("enum|c%d|h%d|%v", cb, hid, sizes), "enum:count-byte", "hash="+c20HashNames[hid], fmt.Sprintf("field:count-byte=%#x0..%#xf", cb>>4, cb>>4))
 			n++
 		}
 	}
 	c.Exhaustive("iterated S2K: all 256 count bytes (x all 7 hashes below 0x60; above: rotating hash in quick, all hashes in thorough) (this shard)", n)
+	// Field-value sweep: every mode octet and every hash-id octet at the parse level.
+	{
+		m := 0
+		for v := 0; v < 256; v++ {
+			for _, which := range []string{"mode", "hash"} {
+				idx++
+				if !ev.Mine(idx) {
+					continue
+				}
+				c20Mem = idx
+				spec := c20Spec(3, 8, detBytes("c20.fsalt", v, 8), 96)
+				okField := false
+				if which == "mode" {
+					spec = append([]byte{byte(v)}, spec[1:]...)
+					okField = v == 0 || v == 1 || v == 3
+					if okField {
+						spec = c20Spec(byte(v), 8, detBytes("c20.fsalt", v, 8), 96)
+					}
+				} else {
+					spec[1] = byte(v)
+					_, okField = c20HashNames[byte(v)]
+				}
+				if okField {
+					if err := c20CheckValid(spec, []byte("field sweep"), []int{24}); err != nil {
+						fatal(err)
+					}
+				} else {
+					_, _, err, pan := c20ParseAndDerive(spec, nil, []byte("x"), []int{16})
+					if pan != nil || err == nil {
+						fatal(fmt.Errorf("s2k.Parse(% x) with unsupported %s octet %d: error expected, got %v %v", spec, which, v, err, pan))
+					}
+				}
+				c.Case(true, fmt.Sprintf("field|%s|%d", which, v), "field:"+which+"-octet", map[bool]string{true: "field:accepted", false: "field:rejected"}[okField])
+				m++
+			}
+		}
+		c.Exhaustive("specifier fields: every mode octet 0..255 and every hash-id octet 0..255 (this shard)", m)
+	}
 	// Serialize count encoding: every requested count around every representable value (cheap: small key, Serialize
 	// hashes the count once) for the counts below 2^17, plus the clamps.
 	if ev.Mine(2) {
